@@ -55,6 +55,7 @@ def rules(ctx):
     c202(ctx)
     c203(ctx)
     c203_departures(ctx)
+    c203_relief(ctx)
     c204(ctx)
     c205(ctx)
     c206(ctx)
@@ -312,6 +313,58 @@ def c203(ctx):
             p = P.reach(f, P.after(f, pt), P.call_points(f, r"lsmtk::tree::Version::next_compaction$"), avoid=set(ts))
             ctx.check(R, f, "compact-recheck", p is None, "after a wake-up the next compaction is chosen from a fresh snapshot",
                       "the compaction thread re-polls a stale version after waking", pt=pt, path=p)
+
+
+def c203_relief(ctx):
+    R = "C20.3"
+    # a version that takes files out of a level (every install_version except the ingest's) is announced on `stall` before the thread
+    # that installed it can go to sleep or hand control back: the obligation follows the call graph, so an install moved into a helper
+    # that leaves the notification to its caller is still checked at that caller
+    fns = [g for g in ctx.prog.fns.values() if g.crate == "lsmtk" and g.skey.startswith("lsmtk::tree::") and g.kind != "Closure"]
+
+    def notifies(g):
+        return [p_ for p_ in P.call_points(g, r"Condvar::notify_(all|one)$") if "stall" in K.arg_field_names(g, p_, 0)]
+    relief = {}
+    for g in fns:
+        if P.call_points(g, r"lsmtk::tree::Version::ingest$"):
+            continue       # the version an ingest installs adds a file to level 0: nothing a stalled ingest waits for
+        pts = P.call_points(g, TREE + "install_version$")
+        if pts:
+            relief[g.key] = list(pts)
+    ctx.floor(R, "functions that install a compaction's version", len(relief), 2)
+    pending = set()
+    changed = True
+    while changed:
+        changed = False
+        for g in fns:
+            if g.key in pending:
+                continue
+            starts = list(relief.get(g.key, []))
+            starts += [P.term_pt(g, b.idx) for b, t in g.calls() if any(k_ in pending for k_ in ctx.prog.targets(t))]
+            if starts and P.reach(g, [a for p_ in starts for a in P.after(g, p_)], P.return_points(g), avoid=set(notifies(g))) is not None:
+                pending.add(g.key)
+                changed = True
+    callers = {}
+    for g in fns:
+        for b, t in g.calls():
+            for k_ in ctx.prog.targets(t):
+                callers.setdefault(k_, set()).add(g.key)
+    for g in sorted(fns, key=lambda g: g.skey):
+        starts = list(relief.get(g.key, []))
+        starts += [P.term_pt(g, b.idx) for b, t in g.calls() if any(k_ in pending for k_ in ctx.prog.targets(t))]
+        if not starts:
+            continue
+        waits = P.call_points(g, r"Condvar::wait(_while|_timeout)?$")
+        q = P.reach(g, [a for p_ in starts for a in P.after(g, p_)], waits, avoid=set(notifies(g))) if waits else None
+        ctx.check(R, g, "relief-announced-before-sleep", q is None, "%s never goes to sleep between installing a compaction's version and notifying `stall`" % g.skey.rsplit("::", 1)[-1],
+                  "%s can wait on a condition variable after a compaction's version was installed and before `stall` is notified: an ingest stalled on a "
+                  "full level 0 is not told that it was relieved, and if nothing else is left to compact nobody ever tells it" % g.skey,
+                  pt=q[-1][1] if q and isinstance(q[-1], tuple) else None, path=q)
+        if g.key in pending and (g.pub or not callers.get(g.key)):
+            ctx.violate(R, g, "relief-announced-before-return", "%s can return with a compaction's version installed and `stall` not notified, and no caller "
+                        "inside the tree module takes the notification over" % g.skey)
+        elif g.key not in pending:
+            ctx.ok(R, g, "%s announces on `stall` every compaction version it installed before it returns" % g.skey.rsplit("::", 1)[-1])
 
 
 OPT_COMPACTION = re.compile(r"^core::option::Option<lsmtk::tree::Compaction>$")
